@@ -147,7 +147,7 @@ def c17b(ctx):
     ctx.check(ok, 'WMSSource._get_transformed:best-srs', 'the source SRS is supported_srs.best_srs(...)', gt)
     ok = okq and all(unparse(f.args[2]).replace(' ', '') == SRS and is_call(f.args[0], 'transform_bbox_to') for f in forms)
     ctx.check(ok, 'WMSSource._get_transformed:query-in-src-srs', 'the upstream query is built with the transformed bbox in the source SRS', gt)
-    ok = okq and all(unparse(f.args[0]).replace(' ', '') == 'query.srs.transform_bbox_to(%s,query.bbox)' % SRS for f in forms)
+    ok = okq and all(same(f.args[0], 'query.srs.transform_bbox_to(%s,query.bbox)' % SRS) for f in forms)
     ctx.check(ok, 'WMSSource._get_transformed:bbox-transformed', 'the upstream bbox is the query bbox transformed from the query SRS into the source SRS', gt)
     gs = ctx.fn(SW + ':WMSSource._get_sub_query')
     sends = [x for x in gs.walk() if is_call(x, 'self.client.retrieve')]
@@ -283,7 +283,7 @@ def c17e(ctx):
             if isinstance(gen.target, ast.Tuple) and len(gen.target.elts) == 2:
                 k, v = (unparse(e) for e in gen.target.elts)
                 elt_ok = (isinstance(x, ast.DictComp) and unparse(x.key) == k and unparse(x.value) == v) or \
-                    (not isinstance(x, ast.DictComp) and unparse(x.elt).replace(' ', '') == '(%s,%s)' % (k, v))
+                    (not isinstance(x, ast.DictComp) and same(x.elt, '(%s,%s)' % (k, v)))
                 ok = ok or (len(gen.ifs) == 1 and keeps(gen.ifs[0], k) and elt_ok)
         if isinstance(x, ast.For) and same(x.iter, 'self.dimensions.items()') and isinstance(x.target, ast.Tuple) and len(x.target.elts) == 2:
             k, v = (unparse(e) for e in x.target.elts)
